@@ -39,6 +39,9 @@ pub struct Scenario {
     pub class: String,
     /// every server is pid 1 of its own pid namespace (servers in separate containers on one hub directory)
     pub pidns: bool,
+    /// every server with an odd index is addressed with another SPELLING of each path (`./d/x`, `d//x`): the same file, another
+    /// string - whatever the server keys on the string (a lock stripe, a cache) no longer coincides between the servers
+    pub alias: bool,
 }
 
 fn h32(c: &[u8]) -> [u8; 32] {
@@ -249,6 +252,15 @@ pub fn run_scenario(sc: &Scenario, workdir: &str, shim: &str, copia: &str) -> Ru
                 if !in_flight[i] && next_req[i] < sc.progs[i].len() {
                     let r = &sc.progs[i][next_req[i]];
                     let q = &mut ctl.procs.get_mut(id).unwrap().input;
+                    // the spelling this server is addressed with (the model and the oracles use the canonical path)
+                    let wire = |p: &String| -> String {
+                        if !sc.alias || i % 2 == 0 { p.clone() } else if p.contains('/') && next_req[i] % 2 == 1 { p.replacen('/', "//", 1) } else { format!("./{}", p) }
+                    };
+                    let r = &match r {
+                        Req::Put { path, exp, decl, len, pieces } => Req::Put { path: wire(path), exp: exp.clone(), decl: decl.clone(), len: *len, pieces: pieces.clone() },
+                        Req::Del { path, exp } => Req::Del { path: wire(path), exp: exp.clone() },
+                        Req::Get { path } => Req::Get { path: wire(path) },
+                    };
                     match r {
                         Req::Put { path, exp, decl, len, pieces } => {
                             q.push_back(frame(&Request::Put { path: path.clone(), expected: exp.as_ref().map(|c| h32(c)), len: *len, hash: h32(decl) }));
@@ -531,7 +543,7 @@ pub fn fmt_scenario(sc: &Scenario) -> String {
         progs.push_str(&format!("P{}={} ", i, if rs.is_empty() { "-".to_string() } else { rs.join(",") }));
     }
     let pol = sc.policy.iter().map(|p| match p { Pol::Step(i) => format!("{}", i), Pol::Kill(i) => format!("{}k", i), Pol::Until(i, c) => format!("{}*{}", i, c), Pol::StepUntil(i, c) => format!("{}+{}", i, c) }).collect::<Vec<_>>().join(",");
-    format!("{} I={} {}Y={}{}", sc.id, init, progs, if pol.is_empty() { "-".to_string() } else { pol }, if sc.pidns { " NS=1" } else { "" })
+    format!("{} I={} {}Y={}{}", sc.id, init, progs, if pol.is_empty() { "-".to_string() } else { pol }, if sc.pidns { " NS=1" } else { "" }) + if sc.alias { " AL=1" } else { "" }
 }
 
 fn parse_exp(s: &str) -> Option<Vec<u8>> {
@@ -541,11 +553,13 @@ fn parse_exp(s: &str) -> Option<Vec<u8>> {
 pub fn parse_scenario(line: &str) -> Scenario {
     let mut it = line.split_whitespace();
     let id = it.next().unwrap().parse().unwrap();
-    let mut sc = Scenario { id, init: vec![], progs: vec![], policy: vec![], class: "replay".into(), pidns: false };
+    let mut sc = Scenario { id, init: vec![], progs: vec![], policy: vec![], class: "replay".into(), pidns: false, alias: false };
     for f in it {
         let (k, v) = f.split_once('=').unwrap();
         if k == "NS" {
             sc.pidns = v == "1";
+        } else if k == "AL" {
+            sc.alias = v == "1";
         } else if k == "I" {
             if v != "-" {
                 for e in v.split(';') {
@@ -664,7 +678,7 @@ pub fn gen_scenarios(seed: u64, tier: &str) -> Vec<Scenario> {
                 let p0 = Req::Put { path: shared.to_string(), exp: Some(curc.clone()), decl: b1.clone(), len: b1.len() as u64, pieces: vec![b1.clone()] };
                 let mut policy = vec![Pol::Until(1, "openr".to_string())];
                 policy.extend((0..60).map(|_| Pol::Step(0)));
-                out.push(Scenario { id, init, progs: vec![vec![p0], vec![Req::Get { path: shared.to_string() }]], policy, class: "directed:get-vs-commit".into(), pidns: false });
+                out.push(Scenario { id, init, progs: vec![vec![p0], vec![Req::Get { path: shared.to_string() }]], policy, class: "directed:get-vs-commit".into(), pidns: false, alias: false });
                 continue;
             }
         }
@@ -680,7 +694,7 @@ pub fn gen_scenarios(seed: u64, tier: &str) -> Vec<Scenario> {
                 if r.chance(1, 2) { p1.push(Req::Get { path: shared.to_string() }); }
                 let mut policy = vec![Pol::Until(0, "rename".to_string())];
                 policy.extend((0..40).map(|_| Pol::Step(1)));
-                out.push(Scenario { id, init, progs: vec![vec![p0], p1], policy, class: "directed:overwrite-vs-reader".into(), pidns: r.chance(1, 4) });
+                out.push(Scenario { id, init, progs: vec![vec![p0], p1], policy, class: "directed:overwrite-vs-reader".into(), pidns: r.chance(1, 4), alias: false });
                 continue;
             }
         }
@@ -699,7 +713,7 @@ pub fn gen_scenarios(seed: u64, tier: &str) -> Vec<Scenario> {
             // completion, then p0 goes on
             let mut policy = vec![Pol::StepUntil(0, "read0".to_string())];
             policy.extend((0..60).map(|_| Pol::Step(1)));
-            out.push(Scenario { id, init, progs: vec![p0, p1], policy, class: "directed:seen-then-foreign-commit-same-length".into(), pidns: false });
+            out.push(Scenario { id, init, progs: vec![p0, p1], policy, class: "directed:seen-then-foreign-commit-same-length".into(), pidns: false, alias: id % 20 == 16 });
             continue;
         }
         if id % 10 == 9 {
@@ -717,7 +731,7 @@ pub fn gen_scenarios(seed: u64, tier: &str) -> Vec<Scenario> {
             let u = |i: usize, c: &str| Pol::Until(i, c.to_string());
             let su = |i: usize, c: &str| Pol::StepUntil(i, c.to_string());
             let policy = vec![u(0, "flock"), Pol::Step(0), u(1, "flock"), Pol::Step(1), su(0, "funlock"), Pol::Step(0), u(1, "rename"), u(2, "funlock"), Pol::Step(2)];
-            out.push(Scenario { id, init, progs: vec![vec![p0], vec![p1], vec![p2]], policy, class: "directed:lock-handoff".into(), pidns: false });
+            out.push(Scenario { id, init, progs: vec![vec![p0], vec![p1], vec![p2]], policy, class: "directed:lock-handoff".into(), pidns: false, alias: id % 20 == 19 });
             continue;
         }
         let steps = 20 + r.below(60) as usize;
@@ -726,7 +740,9 @@ pub fn gen_scenarios(seed: u64, tier: &str) -> Vec<Scenario> {
         // one scenario in six runs every server as pid 1 of its own pid namespace (equal pids in different processes)
         let pidns = r.chance(1, 6);
         let class = format!("n{}{}{}", nproc, if kill_at.is_some() { ":kill" } else { "" }, if pidns { ":pidns" } else { "" });
-        out.push(Scenario { id, init, progs, policy, class, pidns });
+        let alias = r.chance(1, 4);
+        let class = if alias { format!("{}:alias", class) } else { class };
+        out.push(Scenario { id, init, progs, policy, class, pidns, alias });
     }
     out
 }
